@@ -251,6 +251,7 @@ class Sched:
         c.cond = None
         c.deadline = None
         self.cur = c
+        self._swap_domain(me.domain, c.domain)
         c.go.release()
 
     def _swap_domain(self, old: int, new: int):
@@ -605,7 +606,19 @@ class VProcess:
         self.pid = s.next_pid
         s.next_pid += 1
         target = self._target
-        self.vt = s.spawn(self.name, lambda: target(*args, **kwargs), domain=dom, is_proc=True)
+
+        def run():
+            if getattr(target, "__name__", "") == "_worker_loop" and len(args) >= 12:
+                # torch's own worker loop writes the module global `_worker_info` with a `global`
+                # statement, which would be shared by all virtual processes: give this one its own.
+                try:
+                    from torch.utils.data._utils.worker import WorkerInfo
+                    _tls.worker_info = WorkerInfo(id=args[10], num_workers=args[11], seed=args[8] + args[10], dataset=args[1])
+                except Exception:
+                    pass
+            target(*args, **kwargs)
+
+        self.vt = s.spawn(self.name, run, domain=dom, is_proc=True)
         self.vt.pid = self.pid
         s.ev("pstart", self.name)
         s.switch()
